@@ -41,20 +41,28 @@ const yieldPoint = "flushLog.beforeInnerSelect"
 
 // Scenario is one replayable case.
 type Scenario struct {
-	Kind       string `json:"kind"` // forced | random | timeout
+	Kind       string `json:"kind"` // forced | random | timeout | rollfile | dayfile | hourfile (real writers, realwriter.go)
 	Seed       int64  `json:"seed"`
 	Cap        int    `json:"cap"`        // capacity of the log queue
 	Goroutines int    `json:"goroutines"` // logging goroutines
 	PerG       int    `json:"per_g"`      // entries per goroutine (random) / held entries in total (forced)
 	Writers    int    `json:"writers"`
-	Prefill    int    `json:"prefill"`       // forced: entries logged and written before the flusher is held
-	FlushAfter int    `json:"flush_after"`   // random: FlushLogger is called once this many log calls have returned
-	Linger     int    `json:"linger"`        // random: Gosched rounds the flusher spends at the yield point
-	SlowWrite  int    `json:"slow_write"`    // Gosched rounds inside every Write
-	MaxLen     int    `json:"max_len"`       // longest payload
-	WaitFlush  int    `json:"wait_flush_ms"` // forced: every Write of a held entry waits up to this long for FlushLogger to return
-	Model      bool   `json:"model"`         // replay the history through the Lean model
-	Repeat     int    `json:"repeat"`        // replay: how often the scenario is executed (schedules differ)
+	Prefill    int    `json:"prefill"`              // forced: entries logged and written before the flusher is held
+	FlushAfter int    `json:"flush_after"`          // random: FlushLogger is called once this many log calls have returned
+	Linger     int    `json:"linger"`               // random: Gosched rounds the flusher spends at the yield point
+	SlowWrite  int    `json:"slow_write"`           // Gosched rounds inside every Write
+	MaxLen     int    `json:"max_len"`              // longest payload
+	WaitFlush  int    `json:"wait_flush_ms"`        // forced: every Write of a held entry waits up to this long for FlushLogger to return
+	Model      bool   `json:"model"`                // replay the history through the Lean model
+	Repeat     int    `json:"repeat"`               // replay: how often the scenario is executed (schedules differ)
+	Num        int    `json:"num,omitempty"`        // real writers: files kept
+	SizeMB     int    `json:"size_mb,omitempty"`    // rollfile: size limit as given to SetFileRoller
+	LineLen    int    `json:"line_len,omitempty"`   // real writers: longest payload of a line
+	ForceHour  bool   `json:"force_hour,omitempty"` // hourfile: gtime.CurrDateHour is changed half way
+}
+
+func (sc Scenario) real() bool {
+	return sc.Kind == "rollfile" || sc.Kind == "dayfile" || sc.Kind == "hourfile"
 }
 
 type event struct {
@@ -702,6 +710,24 @@ func main() {
 		}
 	} else {
 		scs = genScenarios(o, rng)
+		scs = append(scs, genRealScenarios(o, rng)...)
+	}
+	var realScs []Scenario
+	{
+		var rest []Scenario
+		for _, sc := range scs {
+			if sc.real() {
+				realScs = append(realScs, sc)
+			} else {
+				rest = append(rest, sc)
+			}
+		}
+		scs = rest
+	}
+
+	if hung := runRealStream(o, res, realScs, replay); hung {
+		res.Note("aborted after a hang in the real-writer stream; %d scenarios not executed", len(scs))
+		scs = nil
 	}
 
 	var runs []executed
@@ -839,7 +865,7 @@ func main() {
 	res.Note("tree variant seen by the extractor: %s; executed %d scenarios; runs that lost an entry: %d; forced runs completed: %d", treeVariant, len(runs), lostRuns, forcedCompleted)
 	res.Rule = "cases = one FlushLogger per scenario (forced D4 schedule for every capacity 1,2,3,5,8 × every occupancy, and the default capacity; " +
 		"random: 1..32 goroutines × entries × writers × capacity × slow writer × flusher lingering between its selects, flush after a random number of returned calls; " +
-		"timeout: blocked writer); observable = history of log-call/log-return/Write(writer,bytes)/FlushLogger call/return events; " +
+		"timeout: blocked writer; real writers: RollFileWriter with two rotations at 1 MB / a rotation per write / a single file, DateWriter by day and by hour with a forced hour change, files read back); observable = history of log-call/log-return/Write(writer,bytes)/FlushLogger call/return events; " +
 		"non-trivial = distinct histories with at least one logging call"
 	if err := res.Write(o.Out); err != nil {
 		panic(err)
